@@ -784,6 +784,10 @@ class Server:
                 state = graph[nxt.module]
                 ancestors = state.ancestors or []
                 for dep in state.dependencies + ancestors:
+                    if dep not in graph:
+                        # An ancestor package without a module of its own (for example after
+                        # its __init__.py was deleted); find_added_suppressed() looks for it.
+                        continue
                     if dep not in seen:
                         seen.add(dep)
                         worklist.append(BuildSource(graph[dep].path, graph[dep].id, followed=True))
@@ -811,6 +815,8 @@ class Server:
         all_suppressed = set()
         for state in graph.values():
             all_suppressed |= state.suppressed_set
+            # Ancestor packages that had no module of their own may have got one.
+            all_suppressed.update(state.ancestors or [])
 
         # Filter out things that shouldn't actually be considered suppressed.
         #
